@@ -181,3 +181,217 @@ impl Suite for RealEndsSuite {
         })
     }
 }
+
+
+// ---------------------------------------------------------------------------------------------
+// exact relay through the real forwarder's socket halves
+
+#[derive(Serialize, Deserialize, Debug, Clone)]
+pub struct RelayCase {
+    pub h2: bool,
+    pub up: u32,
+    pub down: u32,
+    /// the destination / the client starts reading this long after the tunnel is up
+    pub dest_delay_ms: u8,
+    pub client_delay_ms: u8,
+    /// the destination reads in pieces of this many bytes with 1 ms pauses (0 = as fast as it can)
+    pub dest_read_piece: u16,
+    /// the upload is 5-7 MB towards a destination with a 4 KiB receive buffer that starts reading
+    /// after 200 ms: more than the kernel's socket buffers take, so the endpoint's socket refuses
+    /// writes (WouldBlock) and the forwarder has to wait and resume
+    #[serde(default)]
+    pub beyond_socket_buffers: bool,
+}
+
+pub struct RealRelaySuite;
+
+impl Suite for RealRelaySuite {
+    type Case = RelayCase;
+    fn name(&self) -> &'static str {
+        "real-destination-relay"
+    }
+    fn rule(&self) -> String {
+        "a CONNECT tunnel on a real HTTP/1.1 or HTTP/2 session (in-memory client transport, real time) through the real DirectForwarder / TcpForwarder to a TCP listener on loopback; both directions at once: the client uploads 0-400000 position-coded bytes (in one case in six 5-7 MB towards a destination with a 4 KiB receive buffer that starts reading after 200 ms, which is more than the kernel's socket buffers take: the endpoint's socket refuses writes and the forwarder has to wait and resume), the destination sends 0-400000; either side starts reading 0-100 ms late and the destination may read in small pieces with pauses (back-pressure through the kernel's socket buffers); then the client ends its direction, the destination answers with its own end; oracle: each side receives exactly the other's bytes, followed by a clean end; non-trivial = at least 100000 bytes in some direction".into()
+    }
+    fn strategy(&self, _: Tier) -> BoxedStrategy<RelayCase> {
+        let size = || prop_oneof![Just(0u32), 1u32..5000, 5000u32..100_000, 100_000u32..400_000];
+        (any::<bool>(), size(), size(), 0u8..100, 0u8..100, prop_oneof![Just(0u16), 512u16..8192], prop_oneof![5 => Just(false), 1 => Just(true)])
+            .prop_map(|(h2, up, down, dest_delay_ms, client_delay_ms, dest_read_piece, beyond_socket_buffers)| {
+                if beyond_socket_buffers {
+                    RelayCase { h2, up: 5_000_000 + up % 2_000_000, down, dest_delay_ms: 200, client_delay_ms, dest_read_piece: 0, beyond_socket_buffers }
+                } else {
+                    RelayCase { h2, up, down, dest_delay_ms, client_delay_ms, dest_read_piece, beyond_socket_buffers }
+                }
+            })
+            .boxed()
+    }
+    fn cases(&self, tier: Tier) -> u64 {
+        tier.pick(480, 9_600)
+    }
+    fn classify(&self, c: &RelayCase) -> Vec<&'static str> {
+        let mut v = vec![if c.h2 { "h2" } else { "h1" }];
+        if c.up >= 100_000 || c.down >= 100_000 {
+            v.push("nontrivial");
+        }
+        if c.dest_read_piece > 0 && c.up >= 100_000 {
+            v.push("slow-destination");
+        }
+        if c.beyond_socket_buffers {
+            v.push("upload-beyond-the-socket-buffers");
+        }
+        v
+    }
+    fn required_classes(&self) -> Vec<&'static str> {
+        vec!["nontrivial", "h1", "h2", "slow-destination", "upload-beyond-the-socket-buffers"]
+    }
+    fn check(&self, c: &RelayCase) -> Verdict {
+        let c = c.clone();
+        aio::block_on_real(async move {
+            // a slow destination also has a small receive buffer, so that the endpoint's socket
+            // really refuses writes (WouldBlock) instead of the kernel swallowing the whole upload
+            let sock = tokio::net::TcpSocket::new_v4().map_err(|e| herr("bind", e))?;
+            if c.dest_read_piece > 0 || c.beyond_socket_buffers {
+                let _ = sock.set_recv_buffer_size(4096);
+            }
+            sock.bind("127.0.0.1:0".parse().unwrap()).map_err(|e| herr("bind", e))?;
+            let listener = sock.listen(8).map_err(|e| herr("bind", e))?;
+            let dest = listener.local_addr().map_err(|e| herr("bind", e))?;
+            let up = pat(c.up as usize);
+            let down: Vec<u8> = pat(c.down as usize).iter().map(|b| b ^ 0xff).collect();
+            let (down2, c2) = (down.clone(), c.clone());
+            // the destination: writes its bytes, reads until the client's end, then ends itself
+            let server = tokio::spawn(async move {
+                let Ok((s, _)) = listener.accept().await else { return (vec![], false) };
+                let (mut rd, mut wr) = s.into_split();
+                let writer = tokio::spawn(async move {
+                    let _ = wr.write_all(&down2).await;
+                    wr
+                });
+                tokio::time::sleep(Duration::from_millis(c2.dest_delay_ms as u64)).await;
+                let mut got = vec![];
+                let mut buf = vec![0u8; if c2.dest_read_piece == 0 { 65536 } else { c2.dest_read_piece as usize }];
+                let mut clean = false;
+                loop {
+                    match tokio::time::timeout(Duration::from_secs(10), rd.read(&mut buf)).await {
+                        Ok(Ok(0)) => {
+                            clean = true;
+                            break;
+                        }
+                        Ok(Ok(n)) => got.extend_from_slice(&buf[..n]),
+                        _ => break,
+                    }
+                    if c2.dest_read_piece > 0 {
+                        tokio::time::sleep(Duration::from_millis(1)).await;
+                    }
+                }
+                if let Ok(mut wr) = writer.await {
+                    let _ = wr.shutdown().await;
+                }
+                (got, clean)
+            });
+            let spec = CoreSpec { allow_private: true, ..CoreSpec::default() };
+            let world = spec.build().map_err(|e| herr("core", e))?;
+            let (io, rec, _srv) = world.serve_recorded(if c.h2 { Proto::Http2 } else { Proto::Http1 }, ChannelView::Tunnel, "main.x", crate::engine::world::peer_v4(), 64 * 1024);
+            let auth = format!("Basic {}", b64("user:pass"));
+            let what = format!("{} tunnel to a loopback destination, {} bytes up and {} down at once, destination reads after {} ms in pieces of {}, client reads after {} ms", if c.h2 { "h2" } else { "h1" }, c.up, c.down, c.dest_delay_ms, c.dest_read_piece, c.client_delay_ms);
+            let mut got = vec![];
+            let clean_end;
+            if c.h2 {
+                let (send, conn) = h2::client::handshake(io).await.map_err(|e| herr("h2", e))?;
+                let conn = tokio::spawn(async move {
+                    let _ = conn.await;
+                });
+                let req = http::Request::builder().method("CONNECT").uri(format!("{}", dest)).header("proxy-authorization", auth.as_str()).body(()).unwrap();
+                let mut sr = send.ready().await.map_err(|e| herr("h2", e))?;
+                let (fut, mut stream) = sr.send_request(req, false).map_err(|e| herr("h2", e))?;
+                let resp = tokio::time::timeout(Duration::from_secs(5), fut).await.map_err(|_| herr("h2", "no response"))?.map_err(|e| herr("h2", e))?;
+                ensure!(resp.status() == 200, "harness:connect", "CONNECT answered {}", resp.status());
+                let up2 = up.clone();
+                let writer = tokio::spawn(async move {
+                    let mut off = 0;
+                    while off < up2.len() {
+                        stream.reserve_capacity((up2.len() - off).min(65536));
+                        let cap = tokio::time::timeout(Duration::from_secs(20), futures::future::poll_fn(|cx| stream.poll_capacity(cx))).await;
+                        let Ok(Some(Ok(cap))) = cap else { return false };
+                        let n = cap.min(up2.len() - off);
+                        if stream.send_data(Bytes::copy_from_slice(&up2[off..off + n]), false).is_err() {
+                            return false;
+                        }
+                        off += n;
+                    }
+                    stream.send_data(Bytes::new(), true).is_ok()
+                });
+                tokio::time::sleep(Duration::from_millis(c.client_delay_ms as u64)).await;
+                let mut body = resp.into_body();
+                clean_end = loop {
+                    match tokio::time::timeout(Duration::from_secs(20), body.data()).await {
+                        Err(_) => break Err("nothing for 20 s".to_string()),
+                        Ok(None) => break Ok(()),
+                        Ok(Some(Ok(b))) => {
+                            let _ = body.flow_control().release_capacity(b.len());
+                            got.extend_from_slice(&b);
+                        }
+                        Ok(Some(Err(e))) => break Err(e.to_string()),
+                    }
+                };
+                let wrote = writer.await.unwrap_or(false);
+                ensure!(wrote || clean_end.is_err(), "tunnel:upload-stalled", "{}: the client could not hand over its upload", what);
+                conn.abort();
+            } else {
+                let (mut rd, mut wr) = tokio::io::split(io);
+                let head = format!("CONNECT {0} HTTP/1.1\r\nHost: {0}\r\nProxy-Authorization: {1}\r\n\r\n", dest, auth);
+                wr.write_all(head.as_bytes()).await.map_err(|e| herr("io", e))?;
+                let mut headbuf = vec![];
+                let mut b = [0u8; 1];
+                while !headbuf.ends_with(b"\r\n\r\n") {
+                    match tokio::time::timeout(Duration::from_secs(5), rd.read(&mut b)).await {
+                        Ok(Ok(1)) => headbuf.push(b[0]),
+                        _ => return viol("harness:connect", format!("no response head ({:?})", String::from_utf8_lossy(&headbuf))),
+                    }
+                }
+                ensure!(headbuf.starts_with(b"HTTP/1.1 200"), "harness:connect", "CONNECT answered {:?}", String::from_utf8_lossy(&headbuf));
+                let up2 = up.clone();
+                let total_down = down.len();
+                // HTTP/1.1 ends the tunnel as a whole when one side ends: the client ends its direction
+                // only after it has received everything
+                let (done_tx, done_rx) = tokio::sync::oneshot::channel::<()>();
+                let writer = tokio::spawn(async move {
+                    let ok = tokio::time::timeout(Duration::from_secs(40), wr.write_all(&up2)).await.map(|r| r.is_ok()).unwrap_or(false);
+                    let _ = done_rx.await;
+                    let _ = wr.shutdown().await;
+                    ok
+                });
+                tokio::time::sleep(Duration::from_millis(c.client_delay_ms as u64)).await;
+                let mut buf = vec![0u8; 16384];
+                let mut done_tx = Some(done_tx);
+                clean_end = loop {
+                    if got.len() >= total_down {
+                        if let Some(tx) = done_tx.take() {
+                            // the upload must be through as well before the client ends
+                            let _ = tx.send(());
+                        }
+                    }
+                    match tokio::time::timeout(Duration::from_secs(20), rd.read(&mut buf)).await {
+                        Err(_) => break Err("nothing for 20 s".to_string()),
+                        Ok(Ok(0)) => {
+                            tokio::time::sleep(Duration::from_millis(20)).await;
+                            break if rec.shut_down.load(Ordering::SeqCst) { Ok(()) } else { Err("transport dropped without an orderly shutdown".into()) };
+                        }
+                        Ok(Ok(n)) => got.extend_from_slice(&buf[..n]),
+                        Ok(Err(e)) => break Err(e.to_string()),
+                    }
+                };
+                let wrote = writer.await.unwrap_or(false);
+                ensure!(wrote || clean_end.is_err(), "tunnel:upload-stalled", "{}: the client could not hand over its upload", what);
+            }
+            let (at_dest, dest_clean) = tokio::time::timeout(Duration::from_secs(25), server).await.map_err(|_| herr("destination", "the destination task did not end"))?.map_err(|e| herr("destination", e))?;
+            let same_d = got.iter().zip(&down).take_while(|(a, b)| a == b).count();
+            ensure!(got == down, if got.len() < down.len() && same_d == got.len() { "tunnel:download-truncated" } else { "tunnel:download-differs" }, "{}: the client has {} of {} bytes, equal up to offset {} (end: {:?})", what, got.len(), down.len(), same_d, clean_end);
+            let same_u = at_dest.iter().zip(&up).take_while(|(a, b)| a == b).count();
+            ensure!(at_dest == up, if at_dest.len() < up.len() && same_u == at_dest.len() { "tunnel:upload-truncated" } else { "tunnel:upload-differs" }, "{}: the destination has {} of {} bytes, equal up to offset {} (clean end: {})", what, at_dest.len(), up.len(), same_u, dest_clean);
+            ensure!(clean_end.is_ok(), "tunnel:clean-end-not-clean", "{}: both sides ended in an orderly way, the client saw {:?}", what, clean_end);
+            ensure!(dest_clean, "tunnel:clean-end-not-clean", "{}: the destination did not see the end of the client's stream", what);
+            Ok(())
+        })
+    }
+}
